@@ -43,6 +43,13 @@ def der_vectors(c):
             else:
                 lines.append({"kind": kind, "in": CL.hx(bytes(inp))})
             exp.append((kind, inp, res, None, None))
+    # OIDs at the upper end of the quantifier, beyond what TLC enumerates: up to 32 arcs of 32 bits (canonical encoding from the reference writer)
+    import derw
+    M32 = 0xffffffff
+    for arcs in ([2, M32 - 80] + [M32] * 30, [2, 0xffffff00] + [M32] * 30, [1, 39] + [M32] * 30, [0, 0] + [0] * 30, [2, 999, 3], [2, 40], [2, 47, 1 << 28, (1 << 28) - 1, 1 << 21, 1 << 14, 1 << 7],
+                 [1, 2] + [M32] * 29, [2, M32 - 80, 0] + [(1 << 28) + i for i in range(29)]):
+        lines.append({"kind": "encoid", "arcs": ",".join(map(str, arcs))})
+        exp.append(("encoid", arcs, (1, list(derw.oid(arcs)), 0), None, None))
     for i, l in enumerate(lines):
         l["id"] = i + 1
     res = CL.run_script("derdrv", ["derdrv.c", "vh.c"], lines, tag="c14d", procs=8)
